@@ -871,3 +871,72 @@ def opt_alloc(ctx):
                               'aborts instead of returning an error' % (expr_str(size)[:70], r, where))
     if n == 0:
         ctx.anchor_missing('allocation sites in the writer constructors')
+
+
+@rule('POS-WRAP', ['C06'], floor=6)
+def pos_wrap(ctx):
+    """Branch-address conversion works modulo 2^32: in the BCJ/BCJ2 filter code every 32-bit addition or
+    subtraction that involves the running stream position (a usize position field cast down to 32 bits, or a
+    32-bit position field advanced in place) uses wrapping arithmetic. A checked `+`/`-` there traps as soon
+    as the position (start offset from the container header plus bytes processed) reaches 2^31 / 2^32: a tiny
+    XZ file with a large BCJ start offset panics the reader."""
+    F = ctx.facts
+    n = 0
+    for f in F.fns:
+        if not f.file.startswith('src/filter/') or f.kind == 'closure':
+            continue
+        prov = None
+        sites = []
+        examined = 0
+        for bi, t in overflow_asserts(f):
+            msg = t['msg']
+            if not (msg.startswith('Overflow:Add') or msg.startswith('Overflow:Sub')):
+                continue
+            tys = [(op_place(o) or {}).get('ty') or (o.get('k') or {}).get('ty') for o in t['msg_ops']]
+            if not any(ty in ('i32', 'u32') for ty in tys):
+                continue
+            prov = prov or Prov(f)
+            ops = [prov.operand(o, 0, '%d:T' % bi) for o in t['msg_ops']]
+            examined += 1
+            pos_cast = any(x[0] == 'cast' and x[1] in ('i32', 'u32') and any(
+                y[0] == 'field' and self_field_of_safe(y) and f.local_ty(1) and 'usize' in _field_ty(F, f, y) for y in expr_walk(x[2]))
+                for o in ops for x in expr_walk(o))
+            # a 32-bit position field advanced in place by something that is not derived from the field itself
+            selfops = [o for o in ops if o[0] == 'field' and self_field_of_safe(o) and _field_ty(F, f, o) in ('u32', 'i32')]
+            others = [o for o in ops if o not in selfops]
+            self32 = bool(selfops) and bool(others) and all(o[0] != 'const' for o in others) and \
+                not any(x[0] == 'field' and x[2] == selfops[0][2] for o in others for x in expr_walk(o)) and \
+                selfops[0][2] in ('ip', 'pos')
+            if pos_cast or self32:
+                sites.append((bi, msg, ' '.join(expr_str(o)[:30] for o in ops)))
+        if not examined and not any(b['term']['k'] == 'call' and (callee_of(b['term']) or {}).get('name', '').startswith('wrapping_') for b in f.blocks):
+            continue
+        # only functions that deal with the position at all
+        prov = prov or Prov(f)
+        touches_pos = any(st['k'] == 'assign' and st['lhs']['l'] == 1 and st['lhs']['p'] and
+                          any(isinstance(pe, dict) and pe.get('n') in ('pos', 'ip') for pe in st['lhs']['p'])
+                          for b in f.blocks if not b['cleanup'] for st in b['stmts'])
+        if not touches_pos:
+            continue
+        n += 1
+        key = '%s:position-arithmetic-wraps' % f.key
+        if sites:
+            ctx.violation(key, f.loc(sites[0][0]), '%d checked 32-bit operation(s) on the stream position (%s): traps once the position reaches '
+                          '2^31 (e.g. XZ block header with a BCJ start offset of 0x80000000, or 2 GiB of data)' % (
+                              len(sites), '; '.join('%s %s' % (m.split(':')[1], d) for _, m, d in sites[:3])))
+        else:
+            ctx.ok(key, f.loc(0), 'no checked 32-bit add/sub involves the stream position')
+    if n == 0:
+        ctx.anchor_missing('filter functions advancing a stream position')
+
+
+def _field_ty(F, fn, fe):
+    """type of the struct field read by a ('field', base, name, owner) expression"""
+    owner = fe[3] if len(fe) > 3 else None
+    for p, a in F.adts.items():
+        if owner and last_seg(p) == owner:
+            for v in a['variants'][:1]:
+                for fl in v['fields']:
+                    if fl['name'] == fe[2]:
+                        return fl['ty']
+    return ''
